@@ -22,7 +22,12 @@
 #include "csg/src/libcsg/molecule.cc"
 #include "csg/src/libcsg/topology.cc"
 #include "csg/src/libcsg/exclusionlist.cc"
+// the glob matcher called from BeadList::Generate goes through a non-inlined forwarding hook, so that its call sites survive -O1
+// inlining and the selection clause can take the matcher by contract (it is decided bit-precisely in C18/E1)
+namespace votca { namespace tools { __attribute__((noinline)) int verif_wildcmp_hook(const std::string& w, const std::string& s) { return wildcmp(w, s); } } }
+#define wildcmp verif_wildcmp_hook
 #include "csg/src/libcsg/beadlist.cc"
+#undef wildcmp
 #include "csg/src/libcsg/nblist.cc"
 #include "csg/src/libcsg/nblistgrid.cc"
 #include "csg/src/libcsg/nblist_3body.cc"
@@ -102,6 +107,24 @@ H long h_triples(long n, const double* pos, const double* box, double cutoff, co
   } catch (...) { return -1; }
 }
 
+// bead selection (C18): two beads with the given one-letter types; names are built by the topology ("<mol>:<res>:<name>" style is
+// whatever Bead::getName returns: here the plain name given at creation).  select: the selection string.  sel[i] = bead i selected.
+H long h_select(const char* select, const long* types, const char* name0, const char* name1, long* sel) {
+  try {
+    Topology top; top.CreateResidue("RES");
+    const char* names[2] = {name0, name1};
+    for (long i = 0; i < 2; i++) {
+      std::string ty(1, (char)types[i]);
+      if (!top.BeadTypeExist(ty)) top.RegisterBeadType(ty);
+      top.CreateBead(Bead::spherical, names[i], ty, 0, 1.0, 0.0);
+    }
+    BeadList bl; bl.Generate(top, select);
+    sel[0] = 0; sel[1] = 0;
+    for (Bead* b : bl) sel[b->getId()] += 1;
+    return (long)bl.size();
+  } catch (...) { return -1; }
+}
+
 // exclusions from bonded interactions: 4 beads in one molecule (a 5th in another); interactions: an angle (a,b,c) and a bond (d,e),
 // handed to CreateExclusions in the order given by angle_first; out[5*i+j] = IsExcluded(i,j)
 H long h_create_excl(long a, long b, long c, long d, long e, long angle_first, long* out) {
@@ -142,6 +165,10 @@ int main(int argc, char** argv) {
     for (long i = 0; i < n; i++) types[i] = atol(argv[a++]);
     long k = h_triples(n, pos, box, cutoff, types, variant, t1, t2, t3, ids, 32, sc);
     printf("RESULT %ld", k); for (long i = 0; i < 3 * k && i < 96; i++) printf(" %ld", ids[i]); printf("\n"); return 0;
+  }
+  if (!strcmp(argv[1], "select")) {
+    long types[2] = {atol(argv[3]), atol(argv[4])}, sel[2] = {0, 0};
+    long k = h_select(argv[2], types, argv[5], argv[6], sel); printf("RESULT %ld %ld %ld\n", k, sel[0], sel[1]); return 0;
   }
   if (!strcmp(argv[1], "excl")) {
     long out[25]; long rc = h_create_excl(atol(argv[2]), atol(argv[3]), atol(argv[4]), atol(argv[5]), atol(argv[6]), atol(argv[7]), out);
